@@ -62,11 +62,25 @@ func C10Diff(r *rand.Rand, src string) map[string]any {
 	if len(cands) == 0 {
 		return nil
 	}
-	return C10DiffKey(src, cands[r.Intn(len(cands))])
+	eref := ""
+	if !strings.Contains(src, "null") { // without deletions the graph index of a connection is its index in the IR
+		var refs []string
+		for _, e := range g.Edges {
+			s, ok1 := plainAbs(e.Src)
+			d, ok2 := plainAbs(e.Dst)
+			if ok1 && ok2 {
+				refs = append(refs, fmt.Sprintf("(%s %s %s)[%d]", s, arrowOf(e), d, e.Index))
+			}
+		}
+		if len(refs) > 0 {
+			eref = refs[r.Intn(len(refs))]
+		}
+	}
+	return C10DiffKey(src, cands[r.Intn(len(cands))], eref)
 }
 
-// C10DiffKey: the differential case of src for the object with absolute id k.
-func C10DiffKey(src, k string) map[string]any {
+// C10DiffKey: the differential case of src for the object with absolute id k (and, when eref is not empty, the connection eref).
+func C10DiffKey(src, k, eref string) map[string]any {
 	base := ensureNL(src)
 	variants := map[string]string{
 		"null":    base + k + ": null\n",
@@ -74,12 +88,19 @@ func C10DiffKey(src, k string) map[string]any {
 		"relabel": base + k + ".label: ZZlbl\n",
 		"primary": base + k + ": ZZprim\n",
 		"twin":    base + swapCaseAll(k) + ".label: ZZtwin\n",
+		"oattr":     base + k + ".style.opacity: 0.35\n",
+		"oattrnull": base + k + ".style.opacity: 0.35\n" + k + ".style.opacity: null\n",
+	}
+	if eref != "" {
+		variants["eattr"] = base + eref + ".style.opacity: 0.35\n"
+		variants["eattrnull"] = base + eref + ".style.opacity: 0.35\n" + eref + ".style.opacity: null\n"
+		variants["emapnull"] = base + eref + ".style.opacity: 0.35\n" + eref + ": {style.opacity: null}\n"
 	}
 	out := map[string]any{"base": Observe(src)}
 	for name, text := range variants {
 		out[name] = Observe(text)
 	}
-	return map[string]any{"k": "diff", "in": map[string]any{"src": src, "key": k, "twin": swapCaseAll(k)}, "out": out}
+	return map[string]any{"k": "diff", "in": map[string]any{"src": src, "key": k, "twin": swapCaseAll(k), "eref": eref}, "out": out}
 }
 
 func swapCaseAll(s string) string {
